@@ -25,6 +25,7 @@ SOLVERS = {
     "cadical": ["--sat-solver", "cadical"],
     "kissat": ["--external-sat-solver", "kissat"],
     "cvc5": ["--cvc5"],
+    "cvc5plain": ["--cvc5"],      # cvc5 without the bv-as-int shim (bitwise kernels: SHA)
     "z3": ["--z3"],
 }
 TOTAL_MEM_GB = 52
